@@ -117,6 +117,7 @@ package vm
 //@   oncall (*vm.StorageKey).JournalChanges : j = j + 1
 //@   assertcall (*vm.StorageKey).JournalChanges under-the-account-root [C13]: j == 0 && $0 != nil && $0 == s.roots[account] && $1 == callIdx
 //@   ensures journaled-once [C13]: j == 1
+//@   ensures account-root-never-replaced [C13]: old(s.roots[account]) != nil ==> s.roots[account] == old(s.roots[account])
 //@   modifies cell:[]byte, map:map[uint64][][]byte, vm.StorageKey.changes, vm.StorageKey.nodeType, map:map[common.Address]*vm.StorageKey
 //@ end
 
@@ -131,7 +132,7 @@ package vm
 //@   verify
 //@   safety [C03]
 //@   requires recv: s != nil && slot != nil
-//@   ensures view [C03 C10 C11]: result == s.index[account][*slot][offset][typeId]
+//@   ensures view [C03 C10 C11 C12]: result == s.index[account][*slot][offset][typeId]
 //@   ensures work-bounded [C20]: work <= old(work)
 //@   modifies nothing
 //@ end
@@ -159,8 +160,9 @@ package vm
 //@   let parentKey = s.index[account][*parent][uint8(0)][parentTypeId]
 //@   let parentMissing = parent != nil && old(parentKey) == nil
 //@   let holder = ite(parent != nil, old(parentKey), s.roots[account])
-//@   ensures out-of-range-offset-refused [C11]: old(offBad) ==> err != nil && unchanged("map:map[common.Address]map[uint256.Int]map[uint8]map[common.Hash]*vm.StorageKey", "map:map[uint256.Int]map[uint8]map[common.Hash]*vm.StorageKey", "map:map[uint8]map[common.Hash]*vm.StorageKey", "map:map[common.Hash]*vm.StorageKey", "map:map[string]*vm.StorageKey", "map:map[uint256.Int]map[uint8]*vm.StorageKey", "map:map[uint8]*vm.StorageKey", "map:map[common.Address]*vm.StorageKey")
+//@   ensures out-of-range-offset-refused [C11 C12]: old(offBad) ==> err != nil && unchanged("map:map[common.Address]map[uint256.Int]map[uint8]map[common.Hash]*vm.StorageKey", "map:map[uint256.Int]map[uint8]map[common.Hash]*vm.StorageKey", "map:map[uint8]map[common.Hash]*vm.StorageKey", "map:map[common.Hash]*vm.StorageKey", "map:map[string]*vm.StorageKey", "map:map[uint256.Int]map[uint8]*vm.StorageKey", "map:map[uint8]*vm.StorageKey", "map:map[common.Address]*vm.StorageKey")
 //@   ensures unknown-parent-refused [C11]: !old(offBad) && parentMissing ==> err != nil && unchanged("map:map[common.Address]map[uint256.Int]map[uint8]map[common.Hash]*vm.StorageKey", "map:map[uint256.Int]map[uint8]map[common.Hash]*vm.StorageKey", "map:map[uint8]map[common.Hash]*vm.StorageKey", "map:map[common.Hash]*vm.StorageKey", "map:map[string]*vm.StorageKey", "map:map[uint256.Int]map[uint8]*vm.StorageKey", "map:map[uint8]*vm.StorageKey", "map:map[common.Address]*vm.StorageKey")
+//@   ensures account-root-never-replaced [C11 C13]: old(s.roots[account]) != nil ==> s.roots[account] == old(s.roots[account])
 //@   ensures registered-parent-accepted [C11]: !old(offBad) && !parentMissing ==> err == nil
 //@   ensures visible-by-slot [C11]: !old(offBad) && !parentMissing ==> s.index[account][*self][old(off8)][typeId] != nil
 //@   ensures visible-by-index [C11]: !old(offBad) && !parentMissing ==> holder != nil && holder.childrenIndex[strof(index)] != nil
@@ -180,7 +182,7 @@ package vm
 //@   ghost j u64 = 0
 //@   oncall (*vm.StorageKey).JournalChanges : j = j + 1
 //@   assertcall (*vm.StorageKey).JournalChanges journals-on-the-indexed-node [C11 C10]: j == 0 && !refused && $0 == node && $1 == callIdx && sameslice($2, newVal)
-//@   ensures unregistered-refused [C11]: old(refused) ==> err != nil && j == 0 && unchanged("cell:[]byte", "map:map[uint64][][]byte", "vm.StorageKey.changes", "vm.StorageKey.nodeType")
+//@   ensures unregistered-refused [C11 C12]: old(refused) ==> err != nil && j == 0 && unchanged("cell:[]byte", "map:map[uint64][][]byte", "vm.StorageKey.changes", "vm.StorageKey.nodeType")
 //@   ensures registered-journaled [C11]: !old(refused) ==> err == nil && j == 1
 //@   ensures work-bounded [C20]: work <= old(work) + uint64(len(newVal)) + 32
 //@   modifies cell:[]byte, map:map[uint64][][]byte, vm.StorageKey.changes, vm.StorageKey.nodeType
@@ -385,10 +387,12 @@ package vm
 //@   safety [C03]
 //@ end
 
-//@ func (*vm.Tracer).SaveStateKey
+//@ func (*vm.Tracer).SaveStateKey(t, account, parent, self, offset, typeId, parentTypeId, index) (err)
 //@   verify
 //@   safety [C03]
 //@   requires recv: t != nil && t.states != nil && self != nil
+//@   ensures out-of-range-offset-refused [C11 C12]: offset != nil && math(*offset) > 31 ==> err != nil
+//@   ensures account-root-never-replaced [C11 C13]: old(t.states.roots[account]) != nil ==> t.states.roots[account] == old(t.states.roots[account])
 //@   ensures work-bounded [C20]: work <= old(work) + uint64(len(index)) + 72
 //@   modifies map:map[common.Address]map[uint256.Int]map[uint8]map[common.Hash]*vm.StorageKey, map:map[uint256.Int]map[uint8]map[common.Hash]*vm.StorageKey, map:map[uint8]map[common.Hash]*vm.StorageKey, map:map[common.Hash]*vm.StorageKey, map:map[string]*vm.StorageKey, map:map[uint256.Int]map[uint8]*vm.StorageKey, map:map[uint8]*vm.StorageKey, map:map[common.Address]*vm.StorageKey
 //@ end
